@@ -35,6 +35,7 @@ const (
 	clEmpty     = "empty.c04.local"     // policy with an upstream subset naming no existing endpoint
 	clDown      = "down.c04.local"      // ready endpoint, nothing listens: the forward attempt fails (502)
 	clUnknown   = "unknown.c04.local"   // not registered
+	clSlow      = "slow.c04.local"      // like ok; its upstream answers with scripted delays (delay.go); never reset by isolate()
 	caseHeader  = "X-Verif-Case"        // correlation header (end-to-end, so it must arrive)
 	tokenAlice  = "tok-alice"
 	tokenEve    = "tok-eve" // may not impersonate anybody
@@ -50,6 +51,7 @@ type script struct {
 type world struct {
 	gw        *e2e.Gateway
 	infos     []*clusters.ClusterInfo // every cluster of the world (for isolate)
+	slow      *clusters.ClusterInfo   // the cluster of the delayed round trips (delay.go)
 	h2        *httptest.Server        // the SAME handler chain behind TLS + HTTP/2 (h2.go)
 	h2client  *http.Client
 	ups       map[string]*e2e.Upstream // cluster -> its upstream
@@ -206,8 +208,30 @@ func newWorld() (*world, error) {
 	} else {
 		w.infos = append(w.infos, ci)
 	}
+	// the cluster of the delayed round trips: not in w.infos, so that isolate() — which gives every endpoint a new transport
+	// and thereby cancels what is in flight on the old one — leaves requests that are sleeping in their upstream alone
+	up := e2e.NewUpstream(w.upstreamHandler)
+	w.ups[clSlow] = up
+	ci, err := w.gw.AddCluster(e2e.Cluster(clSlow, up.URL()), e2e.AlwaysReady, true)
+	if err != nil {
+		return nil, err
+	}
+	w.slow = ci
 	w.startH2()
 	return w, nil
+}
+
+// endpointOf returns the (single) endpoint of the slow cluster.
+func (w *world) endpointOf(cluster string) *clusters.EndpointInfo {
+	if cluster != clSlow || w.slow == nil {
+		return nil
+	}
+	var out *clusters.EndpointInfo
+	w.slow.Endpoints.Range(func(name string, ep *clusters.EndpointInfo) bool {
+		out = ep
+		return false
+	})
+	return out
 }
 
 func (w *world) close() {
